@@ -278,7 +278,11 @@ impl UnverifiedBiscuit {
 
         // we have to add the entire list of public keys here because
         // they are used to validate 3rd party tokens
-        block.symbols.public_keys = self.symbols.public_keys.clone();
+        // (a third-party block keeps its own table: its key references resolve to what its
+        // author declared, not to the token-wide table)
+        if block.external_key.is_none() {
+            block.symbols.public_keys = self.symbols.public_keys.clone();
+        }
         Ok(block)
     }
 
